@@ -140,8 +140,10 @@ def run_harness(cases, tag, exe=None, timeout=900):
         if k in ("D1", "D2", "T1", "T2", "C2", "X1", "X2", "L1", "L2"):
             cur[k].append(v)
         elif k in ("RAW", "W1", "W2", "wlen", "w2", "wcb", "text", "readerr", "builderr", "writeerr", "readcb",
-                   "decodeerr", "rebuild"):
+                   "decodeerr", "rebuild", "wmod", "wafter"):
             cur[k] = v
+        elif k.startswith("MRAW"):
+            cur.setdefault("MRAW", {})[int(k[4:])] = v
     os.remove(path)
     for c in cases:
         if c.id not in res:
@@ -313,6 +315,27 @@ def judge(case, hr, drw, drr, dalt):
         out.append(("MIR_write_with_func and MIR_write gave different bytes", "C11:write-api-differ", {}))
     if "decodeerr" in hr:
         out.append(("reduce_decode rejects the output of MIR_write", "C11:decode", {}))
+    # histories of writes in one context: a module's image must not depend on earlier writes, and
+    # must be what a fresh context writes (= the model's bytes for that module alone)
+    if hr.get("wmod", "same") != "same":
+        out.append(("MIR_write_module of the same module in one context gave different bytes: " + hr["wmod"],
+                    "C11:write-history-dependent", {}))
+    if hr.get("wafter", "same") != "same" and "readerr" not in hr and hr["D2"] == d1:
+        out.append(("MIR_write from the context the module was read into differs from the original image: "
+                    + hr["wafter"], "C11:write-after-read-differs", {}))
+    for i, mres in enumerate(hr.get("_single_model", [])):
+        real = hr["MRAW"].get(i)
+        if real is None or "bytes" not in mres:
+            continue
+        stats["single_module_writes"] = stats.get("single_module_writes", 0) + 1
+        if real != mres["bytes"] and mask(real, mres["ldpad"]) != mask(mres["bytes"], mres["ldpad"]):
+            a_, b_ = bytes.fromhex(mres["bytes"]), bytes.fromhex(real)
+            k_ = next((j for j in range(min(len(a_), len(b_))) if a_[j] != b_[j]), min(len(a_), len(b_)))
+            out.append(("module %d written alone after other writes in the same context is not the image a fresh "
+                        "context writes (model): %d vs %d bytes, first difference at raw offset %d"
+                        % (i, len(b_), len(a_), k_), "C11:write-history-dependent",
+                        {"model_at": a_[max(0, k_ - 8):k_ + 16].hex(), "impl_at": b_[max(0, k_ - 8):k_ + 16].hex()}))
+            break
     # (a) model bytes
     if drw is None or "error" in drw:
         tie_breaks.append((case, "write-bytes", {"model": (drw or {}).get("error", "no answer"), "impl": "writes"}))
@@ -460,6 +483,17 @@ def process(cases, tag, exe=None, timeout=600):
                 cmds.append(("ctr", hr["RAW"]))
                 n += 1
         idx[c.id] = (k, n)
+        if "MRAW" in hr:
+            mods, curm = [], []
+            for l in hr["D1"]:
+                curm.append(l)
+                if l == "endmodule":
+                    mods.append(curm)
+                    curm = []
+            hr["_single_at"] = len(cmds)
+            hr["_single_n"] = len(mods)
+            for m in mods:
+                cmds.append(("write", m))
     if HAVE_DRV:
         dres = run_driver(cmds) if cmds else []
     else:
@@ -496,6 +530,8 @@ def process(cases, tag, exe=None, timeout=600):
                 dalt = {"g": dres[k + 2], "c": dres[k + 3], "p": dres[k + 4], "e": dres[k + 5], "z": dres[k + 6]}
             elif n == 3:
                 hr["model_ctr"] = dres[k + 2]
+        if "_single_at" in hr:
+            hr["_single_model"] = dres[hr["_single_at"]:hr["_single_at"] + hr["_single_n"]]
         c.hr, c.drw = hr, drw
         out.append((c, judge(c, hr, drw, drr, dalt)))
     return out
@@ -1186,7 +1222,8 @@ ck.cov["distribution"] = {"kinds": stats["kinds"], "item_lines": stats["item_kin
                           "temp_counters_compared": stats.get("counters_checked", 0),
                           "temp_counters_nonzero": stats.get("counters_nonzero", 0),
                           "label_operands_identity_checked": stats.get("label_ops_checked", 0),
-                          "read_from_model_bytes": stats.get("read_from_model_bytes", 0)}
+                          "read_from_model_bytes": stats.get("read_from_model_bytes", 0),
+                          "single_module_writes_compared": stats.get("single_module_writes", 0)}
 ck.cov["trusted_base"] = ck.cov.get("trusted_base", []) + [
     "translate/c11_tables.py (textual extraction of enums, insn_descs and five reader facts; fails loudly)",
     "translate/c11_cfun.py (clang-14 JSON AST -> BitVec definitions)", "harness/c11_harness.c (structural dump, builder)",
